@@ -303,6 +303,27 @@ func malformedStrings(maxLen int) [][]byte {
 	return out
 }
 
+// truncatedStreams: every proper prefix of a few well-formed (pipelined) command streams - a client
+// that disconnects at every possible byte position.
+func truncatedStreams() [][]byte {
+	var out [][]byte
+	for _, cmds := range [][][]string{
+		{{"PING"}},
+		{{"SET", "k", "ab"}},
+		{{"ECHO", ""}, {"PING"}},
+		{{"GET", "k\r\n"}},
+	} {
+		var b []byte
+		for _, c := range cmds {
+			b = append(b, model.EncodeCommand(h.B(c...))...)
+		}
+		for cut := 1; cut < len(b); cut++ {
+			out = append(out, append([]byte{}, b[:cut]...))
+		}
+	}
+	return out
+}
+
 func targetedMalformed() [][]byte {
 	var out [][]byte
 	add := func(s string) { out = append(out, []byte(s)) }
@@ -336,7 +357,7 @@ func targetedMalformed() [][]byte {
 	add("PING\r\n")                            // inline command
 	add("\r\n")
 	add("*1\r\n$4\r\nPI")
-	return out
+	return append(out, truncatedStreams()...)
 }
 
 // admissible: every array delivered from a malformed stream must be the decoding of a
@@ -459,6 +480,14 @@ func worker(tb []byte, progress func()) []byte {
 				if got.Hang {
 					addV(viol{Kind: "parser-hang", Cmd: "parse", Shape: shape, Detail: fmt.Sprintf("input %q: the parser does not terminate after EOF", in), Input: in})
 					continue
+				}
+				// the stream that ended must not disturb another connection: a fresh stream decodes exactly
+				if place == 0 {
+					res.Runs++
+					pr := runParser([][]byte{ping})
+					if pr.Panic != "" || pr.Hang || len(pr.Cmds) != 1 || len(pr.Cmds[0]) != 1 || string(pr.Cmds[0][0]) != "PING" || pr.Errs != 0 {
+						addV(viol{Kind: "other-stream-disturbed", Cmd: "parse", Shape: shape, Detail: fmt.Sprintf("after the stream %q ended, a fresh stream carrying one PING decodes as %s (errors %d, panic %q)", in, fmtCmds(pr.Cmds), pr.Errs, pr.Panic), Input: in})
+					}
 				}
 				for _, c := range got.Cmds {
 					if len(c) == 0 {
